@@ -381,7 +381,10 @@ def check_main(pid, prop, tier, seed):
     """
     env_threads()
     t0 = time.time()
-    ev_path = os.path.join(VERIF, 'evidence', f'{pid}.json')
+    # (runs against a scratch copy of the repository -- seeded changes, PTN_REPO set -- must not overwrite the evidence of /repo)
+    ev_dir = os.environ.get('VERIF_EVIDENCE_DIR') or (os.path.join(VERIF, 'evidence') if REPO == '/repo' else os.path.join(VERIF, '.work', 'evidence-scratch'))
+    os.makedirs(ev_dir, exist_ok=True)
+    ev_path = os.path.join(ev_dir, f'{pid}.json')
     broken = []          # names of theorems / correspondences that no longer check
     obl = load_obligations(pid)
     try:
